@@ -100,6 +100,16 @@ type Case struct {
 	sample any
 	extra  any
 	notes  []string
+	incon  []string
+}
+
+// Inconclusive records that this case could not be decided (a harness-side
+// wait ran out without the stall rule applying, a peer script failed, ...).
+// The run then ends INCONCLUSIVE unless a violation was found.
+func (c *Case) Inconclusive(format string, a ...any) {
+	c.mu.Lock()
+	c.incon = append(c.incon, fmt.Sprintf("case %d: ", c.Index)+fmt.Sprintf(format, a...))
+	c.mu.Unlock()
 }
 
 // SubSeed derives a stable 63-bit seed from (seed, property, index, label).
@@ -415,6 +425,7 @@ func childMain(p *Prop, tier string, seed int64, from, to int, witness, outPath 
 		if incon != "" {
 			delta.Incon = append(delta.Incon, incon)
 		}
+		delta.Incon = append(delta.Incon, c.incon...)
 	}
 
 	if witness != "" {
@@ -460,3 +471,6 @@ func childMain(p *Prop, tier string, seed int64, from, to int, witness, outPath 
 	enc.Encode(&childMsg{Kind: "done"})
 	return 0
 }
+
+// NewRand returns a PRNG for a derived seed (see SubSeed).
+func NewRand(seed int64) *rand.Rand { return rand.New(rand.NewSource(seed)) }
